@@ -98,6 +98,13 @@ func (reobsHarness) Gen(seed uint64, prop, tier string) *simkit.Program {
 	return p
 }
 
+func txHead(tx []byte, n int) []byte {
+	if len(tx) < n {
+		return tx
+	}
+	return tx[:n]
+}
+
 type fwdKey struct {
 	chain uint32
 	tx    string
@@ -205,17 +212,17 @@ func (h reobsHarness) Exec(p *simkit.Program) *simkit.Result {
 				}
 			case !seen:
 				if !fwd {
-					violate("fresh-request-not-forwarded", "first request (or first after a drop) for chain %d tx %x was not forwarded although the queue had room", chain, tx[:2])
+					violate("fresh-request-not-forwarded", "first request (or first after a drop) for chain %d tx %x was not forwarded although the queue had room", chain, txHead(tx, 2))
 				}
 			case now.Sub(last) < 11*time.Minute-time.Second:
 				if fwd {
-					violate("forwarded-twice-within-window", "chain %d tx %x forwarded again %v after the previous forward", chain, tx[:2], now.Sub(last))
+					violate("forwarded-twice-within-window", "chain %d tx %x forwarded again %v after the previous forward", chain, txHead(tx, 2), now.Sub(last))
 				} else {
 					suppressed++
 				}
 			case now.Sub(last) >= 18*time.Minute+time.Second:
 				if !fwd {
-					violate("not-forwarded-after-window", "chain %d tx %x not forwarded %v after the previous forward", chain, tx[:2], now.Sub(last))
+					violate("not-forwarded-after-window", "chain %d tx %x not forwarded %v after the previous forward", chain, txHead(tx, 2), now.Sub(last))
 				}
 				stats.Probe("forwarded-again-after-window")
 			default:
@@ -225,7 +232,7 @@ func (h reobsHarness) Exec(p *simkit.Program) *simkit.Result {
 				forwards++
 				lastFwd[key] = now
 			}
-			log.Add("req chain=%d tx=%x fwd=%v", chain, tx[:1], fwd)
+			log.Add("req chain=%d tx=%x fwd=%v", chain, txHead(tx, 1), fwd)
 		}
 		for i, st := range p.Steps {
 			step = i
